@@ -304,9 +304,12 @@ where
             let sum = max.clone() + &min;
             let l = sum.clone() / T::from_f64(2.0);
             if max.neq(&min).is_true() {
+                // `2 - sum` can be rounded to 0 when `max` is 1 and `min` is
+                // close to 1. This form is never 0 when `max != min`.
+                let inverted_sum = (T::one() - &max) + (T::one() - &min);
                 let d = max - min;
                 s = if sum.gt(&T::one()).is_true() {
-                    d.clone() / (T::from_f64(2.0) - sum)
+                    d.clone() / inverted_sum
                 } else {
                     d.clone() / sum
                 };
@@ -338,8 +341,10 @@ where
             let chroma = max.clone() - &min;
             let saturation = lazy_select! {
                 if min.eq(&max) => T::zero(),
+                // `2 - sum` can be rounded to 0 when `max` is 1 and `min` is
+                // close to 1. This form is never 0 when `max != min`.
                 else => chroma.clone() /
-                    sum.gt(&T::one()).select(T::from_f64(2.0) - &sum, sum.clone()),
+                    sum.gt(&T::one()).select((T::one() - &max) + (T::one() - &min), sum.clone()),
             };
 
             // Each of these represents an RGB component. The maximum will be false
